@@ -76,7 +76,10 @@ var setterTable = []setterRow{
 func init() {
 	register(&core.Rule{ID: "W1", Min: 16, Arm64: true,
 		Doc: "Config.Froze: every Config field is read exactly in `if cfg.F { api.<side>Opts |= K }` rows whose K resolves (by object, through its initialiser chain) to the canonical bit(s) the frozen field table assigns; no bit is set unconditionally; no field is left unread.",
-		Run: runW1})
+		Run: func(c *core.Ctx) { runW1(c, nil) }})
+	register(&core.Rule{ID: "W1c", Min: 1, Arm64: true,
+		Doc: "The CopyString row of W1 alone: Config.CopyString reaches F_copy_string in the frozen decoder word and no later plain assignment to that word discards it (the no-alias guarantee of ConfigStd and of Config{CopyString:true} rests on this bit).",
+		Run: func(c *core.Ctx) { runW1(c, map[string]bool{"CopyString": true}) }})
 	register(&core.Rule{ID: "W2", Min: 30, Arm64: true,
 		Doc: "Every exported option constant (sonic/encoder, internal/encoder, sonic/decoder, internal/decoder/api, internal/decoder/consts) resolves through its initialiser chain to `1 << <the canonical bit of its name>`; CompatibleWithStd = SortMapKeys|EscapeHTML|CompactMarshaler.",
 		Run: runW2})
@@ -90,7 +93,8 @@ func init() {
 
 // ---------------------------------------------------------------------------
 
-func runW1(c *core.Ctx) {
+func runW1(c0 *core.Ctx, only map[string]bool) {
+	c := &w1ctx{c0, only}
 	p := c.Prog
 	root := p.Pkg("")
 	fd := core.FuncDecl(root, "Config", "Froze")
@@ -109,10 +113,12 @@ func runW1(c *core.Ctx) {
 	bf := bitFamily{p}
 	got := map[string][]string{} // field -> bits
 	pos := map[string]token.Pos{}
+	sideOf := map[string][]string{} // option word -> fields accumulated so far, in order
+	clobbered := map[string]token.Pos{}
 	// the variable that receives &frozenConfig{...}
 	handleAssign := func(field string, s ast.Stmt) bool {
 		as, ok := s.(*ast.AssignStmt)
-		if !ok || len(as.Lhs) != 1 || len(as.Rhs) != 1 || as.Tok != token.OR_ASSIGN {
+		if !ok || len(as.Lhs) != 1 || len(as.Rhs) != 1 || (as.Tok != token.OR_ASSIGN && as.Tok != token.ASSIGN) {
 			return false
 		}
 		lhs, ok := as.Lhs[0].(*ast.SelectorExpr)
@@ -128,6 +134,16 @@ func runW1(c *core.Ctx) {
 		default:
 			return false
 		}
+		if as.Tok == token.ASSIGN {
+			// a plain store discards every bit the earlier rows OR-ed into this word
+			for _, f := range sideOf[lhs.Sel.Name] {
+				if f != field {
+					clobbered[f] = as.Pos()
+				}
+			}
+			sideOf[lhs.Sel.Name] = nil
+		}
+		sideOf[lhs.Sel.Name] = append(sideOf[lhs.Sel.Name], field)
 		bits, shifted, ok := bf.bitsOf(as.Rhs[0], 0)
 		if !ok || !shifted {
 			c.Undecided("sonic.(Config).Froze/"+field, as.Pos(), "right-hand side %s does not resolve to 1<<canonical-bit", exprStr(as.Rhs[0]))
@@ -182,6 +198,10 @@ func runW1(c *core.Ctx) {
 			c.Bad("sonic.(Config).Froze/"+f, ps, "Config.%s is never read by Froze: the option has no effect (expected to set %s)", f, strings.Join(want, ", "))
 			continue
 		}
+		if cp, bad := clobbered[f]; bad {
+			c.Bad("sonic.(Config).Froze/"+f, cp, "the plain assignment here overwrites the option word and discards the bit(s) %s set for Config.%s by an earlier row (`=` where `|=` is meant)", strings.Join(g, ", "), f)
+			continue
+		}
 		if strings.Join(g, ",") == strings.Join(want, ",") {
 			c.OK("sonic.(Config).Froze/"+f, ps, "sets exactly %s", strings.Join(g, ", "))
 		} else {
@@ -192,6 +212,35 @@ func runW1(c *core.Ctx) {
 		if _, ok := frozeTable[f]; !ok && f != "<unconditional>" {
 			c.Bad("sonic.(Config).Froze/"+f, pos[f], "row for unknown field %s", f)
 		}
+	}
+}
+
+// w1ctx filters W1's obligations down to the rows named in only (nil: all rows).
+type w1ctx struct {
+	*core.Ctx
+	only map[string]bool
+}
+
+func (w *w1ctx) keep(construct string) bool {
+	if w.only == nil {
+		return true
+	}
+	i := strings.LastIndex(construct, "/")
+	return i >= 0 && w.only[construct[i+1:]]
+}
+func (w *w1ctx) OK(construct string, pos token.Pos, f string, a ...interface{}) {
+	if w.keep(construct) {
+		w.Ctx.OK(construct, pos, f, a...)
+	}
+}
+func (w *w1ctx) Bad(construct string, pos token.Pos, f string, a ...interface{}) {
+	if w.keep(construct) {
+		w.Ctx.Bad(construct, pos, f, a...)
+	}
+}
+func (w *w1ctx) Undecided(construct string, pos token.Pos, f string, a ...interface{}) {
+	if w.keep(construct) || w.only != nil && !strings.Contains(construct, "/") {
+		w.Ctx.Undecided(construct, pos, f, a...)
 	}
 }
 
